@@ -56,6 +56,29 @@ def record(bindir, seed, ops, workdir, profile="crash", name="mem.mv2", extra_en
             "final_bytes": open(os.path.join(d, name), "rb").read() if os.path.exists(os.path.join(d, name)) else None, "seed": seed}
 
 
+def count_wraps(states):
+    """Times the log's write head moved back to the region start between two operations (same region size)."""
+    n, prev = 0, None
+    for st in states:
+        w = st.get("wal")
+        if w and prev and w["wal_size"] == prev["wal_size"] and w["write_head"] < prev["write_head"] and w["sequence"] > prev["sequence"]:
+            n += 1
+        if w:
+            prev = w
+    return n
+
+
+def count_growths(states):
+    n, prev = 0, None
+    for st in states:
+        w = st.get("wal")
+        if w and prev and w["wal_size"] > prev["wal_size"]:
+            n += 1
+        if w:
+            prev = w
+    return n
+
+
 def annotate(events):
     """Attach (op_index, op name, inside_op, phase stack) to every event."""
     op_i, op_name, inside = -1, "", False
